@@ -104,3 +104,17 @@ package xreq
 //@   ensures cast("*socket", result).bestEffort == false
 //@
 // ---- end generated default contracts ----
+// ---- generated current-queue contracts (from `govc sites -select`): the select uses the socket's queues as of the last time the lock was held ----
+//@ func (*pipe).receiver
+//@   before select#1 assert selsends(p.s.recvQ) && selwaits(p.s.sizeQ)
+//@
+//@ func (*pipe).sender
+//@   before select#1 assert selwaits(p.s.sendQ) && selwaits(p.s.sizeQ)
+//@
+//@ func (*socket).RecvMsg
+//@   before select#1 assert selwaits(s.recvQ) && selwaits(s.sizeQ)
+//@
+//@ func (*socket).SendMsg
+//@   before select#1 assert selsends(s.sendQ) && selwaits(s.sizeQ)
+//@
+// ---- end generated current-queue contracts ----
